@@ -18,7 +18,8 @@ RULE = ("Hypothesis-generated (sequence of 1..3 real uids assumed one after anot
         "three filters only_uid:L, exclude_uid:L and only_root are each consulted by a real wrapped exec. Oracle: set "
         "membership of getresuid()'s real uid; only_uid and exclude_uid must disagree. non-trivial = list contains a near "
         "miss of the real uid, or real uid >= 2^16, or the effective uid is a listed value different from the real uid, or the "
-        "real uid changes between calls; distinct by (ruid sequence, list class)")
+        "real uid changes between calls; distinct by (ruid sequence, list class). Lists of 200 items (longer than a config line) are "
+        "delivered as compiled-in default chain (./configure --with-filter-chain) in extra builds")
 
 UIDS = [0, 1, 999, 1000, 65534, 65535, 65536, 2 ** 31 - 1, 2 ** 31, 2 ** 32 - 2]
 
@@ -124,6 +125,60 @@ def classify(c):
     return key, cls
 
 
+# ------------------------------------------------------------------ lists longer than a config line: compiled-in default chain
+def long_list(rng, n, member, pos):
+    items = []
+    while len(items) < n:
+        v = rng.choice([rng.randint(1000000000, 4294967294), rng.randint(10000, 99999), rng.randint(0, 2 ** 32 - 2)])
+        if v != member and v not in (0, 1000, 65536):
+            items.append(v)
+    if pos == "last":
+        items[-1] = member
+    elif pos == "middle":
+        items[n // 2] = member
+    elif pos == "first":
+        items[0] = member
+    return items
+
+
+def long_list_phase(ctx, b_main):
+    """only_uid / exclude_uid with 200-item lists (up to ~2.2 KB) delivered through ./configure --with-filter-chain."""
+    import random
+    rng = random.Random(ctx.seed)
+    member = rng.choice([1000, 65536, 2 ** 31, 2 ** 32 - 2])
+    specs = []
+    plans = [("only_uid", "last"), ("exclude_uid", "middle")] if ctx.quick else [("only_uid", "last"), ("exclude_uid", "middle"), ("only_uid", "middle"),
+                                                                                 ("exclude_uid", "last"), ("only_uid", "first")]
+    for i, (flt, pos) in enumerate(plans):
+        items = long_list(rng, 200, member, pos)
+        chain = "%s:%s" % (flt, ",".join(map(str, items)))
+        specs.append({"variant": "ts-asan", "name": "chain%d" % i, "extra_configure": ["--with-filter-chain=" + chain,
+                                                                                    "--with-message-format=R", "--with-default-output=file:" + ctx.run.out + "/longlist.log"]})
+    builds = ctx.run.build_many(specs)
+    for (flt, pos), b in zip(plans, builds):
+        d = drv.Driver(ctx.run, b)
+        try:
+            for ruid, is_member in ((member, True), (member + 1 if member < 2 ** 32 - 3 else member - 1, False), (0, False)):
+                log = ctx.run.out + "/longlist.log"
+                ops = [drv.op("D"), drv.op("x", log), drv.op("W", "log", log), drv.op("U", -1, -1, -1, ruid, 0, 0), drv.op("Q"),
+                       drv.op_exec("e", b"/bin/x", [b"x"], [], ret=-1, err=2), drv.op("U", -1, -1, -1, -1, 0, -1), drv.op("G")]
+                res = d.scenario(ops)
+                d.sanitizer_reports()
+                ctx.count(("longlist", flt, pos, ruid), ["compiled-in-200-item-list", flt], sample={"filter": flt, "list_items": 200, "member_position": pos, "ruid": ruid})
+                if not res.clean or not res.of("G"):
+                    ctx.violation({"longlist": [flt, pos, ruid]}, {"result": res.describe()}, None, "crash with a 200-item uid list compiled in as default chain")
+                    return
+                logged = drv.parse_dump(res.of("G")[-1])["log"][2] == b"R\n"
+                want = is_member if flt == "only_uid" else not is_member
+                if logged != want:
+                    ctx.violation({"longlist": [flt, pos, ruid]}, {"logged": logged}, {"logged": want},
+                                  "%s with a 200-item list (compiled-in default chain, member at %s position): real uid %d -> %s" % (
+                                      flt, pos, ruid, "logged" if logged else "dropped"))
+                    return
+        finally:
+            d.close()
+
+
 def main():
     ctx = Ctx(PID, "exploration", RULE)
     b = ctx.run.build("ts-asan")
@@ -131,6 +186,8 @@ def main():
                        "only well-formed decimal lists are generated (malformed lists belong to C02)"]
     nw, per = (4, 400) if ctx.quick else (16, 5000)
     pbt.run(ctx, {"ts-asan": b}, strategy, evaluate, classify, nw, per)
+    if not ctx.replay:
+        long_list_phase(ctx, b)
     ctx.finish()
 
 
